@@ -223,7 +223,8 @@ void VM<FO>::do_log_typed(int tid, int opi, Op const& op)
   case 2:
   {
     bool a = r.chance(1, 2);
-    char b = static_cast<char>(r.range('!', '~'));
+    // printable and non-printable (control, DEL, high-bit, NUL) char values: a char alone makes the statement subject to sanitisation
+    char b = r.chance(1, 2) ? static_cast<char>(r.range('!', '~')) : static_cast<char>(r.pick<int>({0, 1, 7, 9, 27, 127, 128, 200, 233, 255}));
     long long c = i64();
     unsigned long long d = u64();
     VS_TSITE(true, "{} {} {} {}", a, b, c, d);
